@@ -22,6 +22,7 @@ def main(seed, tier):
     violations, samples = [], []
     distinct = set()
     kept = {}
+    slow_ids = set()
     for out in common.pmap(c06.run_item, [(it, seed, tier) for it in items]):
         for k in ("runs", "steps", "plans", "inside", "after"):
             agg[k] += out[k]
@@ -37,6 +38,8 @@ def main(seed, tier):
         kinds[out["kind"].split(":")[0]] = kinds.get(out["kind"].split(":")[0], 0) + 1
         violations.extend(out["violations"])
         kept[out["id"]] = (out["runs"], out["plans"], sorted(out["fired"].items()), sorted(v["key"] for v in out["violations"]))
+        if out.get("slow_reference") or out.get("forkserver_lost") or out.get("timeouts_not_confirmed"):
+            slow_ids.add(out["id"])
         if out["cases"] and len(samples) < 8 and out["id"] % 7 == 0:
             samples.extend(out["cases"])
         # distinct non-trivial case = (item, fault kind that fired at a distinct position); counted per item from fired keys
@@ -51,6 +54,8 @@ def main(seed, tier):
             again = c06.run_item((it, seed, tier))
             a = (again["runs"], again["plans"], sorted(again["fired"].items()), sorted(v["key"] for v in again["violations"]))
             b = kept.get(it["id"])
+            if again.get("slow_reference") or it["id"] in slow_ids or again.get("forkserver_lost") or again.get("timeouts_not_confirmed"):
+                continue      # the wall-clock bail-outs (slow reference -> sampled plans, lost fork server) legitimately change the plan list
             if b is not None and a != b:
                 raise HarnessError("item %d gives different results when re-run serially: the simulation is not deterministic" % it["id"])
             xcheck += 1
